@@ -5,7 +5,9 @@ package main
 
 import (
 	"fmt"
+	"os"
 	"go/token"
+	"go/types"
 	"sort"
 	"strings"
 
@@ -33,9 +35,13 @@ type Obligation struct {
 	// results
 	Res      SolveResult
 	smtText  string
+	relaxed  bool // quantified assumptions dropped (model search only)
+	RelaxedModel bool
 	Vacuous  bool
 	IsCanary bool
 }
+
+var debugTrace = os.Getenv("GOVC_TRACE") != ""
 
 type EngineError struct{ Msg string }
 
@@ -96,13 +102,18 @@ func (x *Exec) assume(pc, fact *Term, why string) {
 
 func (x *Exec) assumeTrue(fact *Term) { x.assume(TTrue, fact, "type") }
 
-func (x *Exec) assumeNeed(need string, fact *Term) {
-	k := [2]*Term{TTrue, fact}
+func (x *Exec) assumeNeed(need string, fact *Term) { x.assumeNeedPC(TTrue, need, fact) }
+
+// assumeNeedPC: a fact that holds on the paths satisfying pc (facts about
+// path-specific fresh objects must not leak to other paths, where the same
+// numeric handle may denote another object).
+func (x *Exec) assumeNeedPC(pc *Term, need string, fact *Term) {
+	k := [2]*Term{pc, fact}
 	if x.assumeIx[k] {
 		return
 	}
 	x.assumeIx[k] = true
-	x.assumes = append(x.assumes, Assumption{TTrue, fact, "axiom", need})
+	x.assumes = append(x.assumes, Assumption{pc, fact, "axiom", need})
 }
 
 func (x *Exec) oblige(kind string, props []string, pc, goal *Term, pos token.Pos, text string) *Obligation {
@@ -185,6 +196,7 @@ type frame struct {
 	inlineDepth int
 	callSeq map[string]int
 	defCtx map[ssa.Value][]*loopInfo
+	loopLets map[string]map[string]Value
 }
 
 type retState struct {
@@ -272,7 +284,10 @@ func (f *frame) getNode(b *ssa.BasicBlock, ctx []ctxEntry) *node {
 	}
 	n := &node{B: b, Ctx: ctx, Key: k}
 	f.nodes[k] = n
-	if l := f.headOf[b]; l != nil && l.Spec != nil && l.Spec.Unroll == 0 {
+	if l := f.headOf[b]; l != nil && (l.Spec == nil || l.Spec.Unroll == 0) {
+		if l.Spec == nil {
+			l.Spec = &LoopSpec{}
+		}
 		n.InvHead = true
 		n.Loop = l
 	}
@@ -280,6 +295,7 @@ func (f *frame) getNode(b *ssa.BasicBlock, ctx []ctxEntry) *node {
 		var to *node
 		if l := f.headOf[s]; l != nil && l.Body[b] {
 			// back edge
+			ctx := ctx
 			cur := ctx[len(ctx)-1]
 			for cur.L != l {
 				// leaving inner loops through a back edge of an outer loop
@@ -287,7 +303,7 @@ func (f *frame) getNode(b *ssa.BasicBlock, ctx []ctxEntry) *node {
 				cur = ctx[len(ctx)-1]
 			}
 			if l.Spec == nil {
-				fail("%s: loop %d (block %d) has neither invariant nor unroll", FuncKey(f.fn), l.Ordinal, l.Head.Index)
+				l.Spec = &LoopSpec{} // no annotation: cut with the invariant "true" (havoc only)
 			}
 			if l.Spec.Unroll > 0 {
 				if cur.Iter < l.Spec.Unroll {
@@ -395,6 +411,26 @@ func (f *frame) get(v ssa.Value, n *node, st *State) Value {
 	if val, ok := f.regs[f.regKey(v, n.Ctx)]; ok {
 		return val
 	}
+	// defined inside a loop, used on an exit path: any instance (they must agree)
+	if a, ok := v.(*ssa.Alloc); ok && !a.Heap {
+		if _, isArr := deref(a.Type()).Underlying().(*types.Array); !isArr {
+			return Value{T: a.Type(), P: &Ptr{Kind: PLocal, Alloc: a, RootT: deref(a.Type())}}
+		}
+	}
+	prefix := fmt.Sprintf("%p@", v)
+	var found *Value
+	for k, val := range f.regs {
+		if strings.HasPrefix(k, prefix) {
+			val := val
+			if found != nil && !sameValue(*found, val) {
+				fail("%s: register %s defined in several loop iterations is used after the loop (outside the verified subset)", FuncKey(f.fn), v.Name())
+			}
+			found = &val
+		}
+	}
+	if found != nil {
+		return *found
+	}
 	fail("%s: register %s (%T) read before definition in block %d", FuncKey(f.fn), v.Name(), v, n.B.Index)
 	return Value{}
 }
@@ -484,6 +520,7 @@ func (f *frame) runNode(n *node) {
 		return
 	}
 	if n.InvHead {
+		f.bindLoopLets(n.Loop, st, n)
 		f.checkInvariants(n.Loop, st, "inv-entry", n)
 		f.havocLoop(n.Loop, st, n)
 		f.assumeInvariants(n.Loop, st, n)
@@ -491,6 +528,9 @@ func (f *frame) runNode(n *node) {
 	n.outs = make([]*State, len(n.B.Succs))
 	for _, in := range n.B.Instrs {
 		if st == nil || st.pc.IsFalse() {
+			if debugTrace {
+				fmt.Printf("TRACE %s block %d ctx %s: dead before %v\n", FuncKey(f.fn), n.B.Index, ctxKey(n.Ctx), in)
+			}
 			return
 		}
 		switch i := in.(type) {
@@ -534,4 +574,19 @@ func (f *frame) panicAt(i *ssa.Panic, n *node, st *State) {
 		return
 	}
 	x.oblige("unreachable", nil, st.pc, TFalse, i.Pos(), "explicit panic must be unreachable")
+}
+
+func sameValue(a, b Value) bool {
+	if len(a.C) != len(b.C) {
+		return false
+	}
+	for i := range a.C {
+		if a.C[i] != b.C[i] {
+			return false
+		}
+	}
+	if (a.P == nil) != (b.P == nil) {
+		return false
+	}
+	return a.P == nil || samePtr(a.P, b.P)
 }
